@@ -367,7 +367,7 @@ RGX_ASM = ["codec entry points replaced by stubs returning any result their inte
            "RG: at every lock acquisition counters, queue sizes and the parser token are arbitrary subject to INV of h_expand_rg.c (rely); C12 assumed",
            "two input blocks of two words are queued; output-slot total symbolic 3..6 (the production factor 16*workers does not enter the invariant)"]
 RGXB = "worker count 1..2, output slots 3..6, counters / queue sizes / ghost in-flight counts arbitrary subject to INV; one task execution with re-havoc at every lock release"
-for _e, _w in (("emit", ["emit_enabled", "emit_needs_another_buffer"]), ("reorder", ["reorder_enabled", "block_written", "bogus_block_dropped"]),
+for _e, _w in (("emit", ["emit_enabled", "emit_needs_another_buffer", "emit_on_reserved_slot"]), ("reorder", ["reorder_enabled", "block_written", "bogus_block_dropped"]),
                ("parse", ["parse_enabled", "parser_finds_block", "parser_needs_input", "parser_finishes"]),
                ("retrieve", ["retrieve_enabled", "retrieve_needs_input", "refuted_candidate_aborted"]), ("scan", ["scan_enabled", "candidate_reported"]),
                ("write_complete", ["write_completes"]), ("terminate", ["terminates"])):
